@@ -26,7 +26,7 @@ NoVal == 99999
 Walk1 == { 2^k : k \in 0..15 }
 Walk0 == { \hFFFF - 2^k : k \in 0..15 }
 Special == { \h40C0, 3, 5, 7, 8, \h060C, \h0410, \h0404, \h0608, \h00FF, \hFF00 }
-TwoHot == { 2^i + 2^j : i \in 0..15, j \in 0..15 } \ Walk1
+TwoHot == { 2^p[1] + 2^p[2] : p \in { q \in (0..15) \X (0..15) : q[1] < q[2] } }
 Values == { 0, \hFFFF, \h5555, \hAAAA } \cup Walk1 \cup Walk0 \cup Special
           \cup (IF ValMode >= 2 THEN TwoHot \cup { \h0F0F, \hF0F0, \h3333, \hCCCC, \h7FFF, \h8001, 1234, 40000 }
                 ELSE {})
